@@ -49,7 +49,9 @@ def main():
   env = dict(os.environ)
   env.pop('ML_METRICS_VERIF', None)
   env['PYTHONPATH'] = wt
-  rc, _ = sh('git checkout -q -- . && git status --porcelain --untracked-files=no', cwd=wt)
+  head = sh('git -C /repo rev-parse HEAD')[1].strip()
+  rc, _ = sh(f'git checkout -q -- . && git checkout -q --detach {head} && git status --porcelain --untracked-files=no', cwd=wt)
+  out['repo_head'] = head
   rc, o = sh(f'/venv/bin/python {mdir}/demo.py', cwd=wt, env=env, timeout=900)
   out['demo_clean_rc'] = rc
   out['ran'].append(f'demo on clean tree -> exit {rc}')
